@@ -79,6 +79,31 @@ func c16ListExec(c *core.Ctx, in c16List) {
 		fail(pi.Key(), "panics: "+pi.Msg)
 		return
 	}
+	// a serialisation must stay valid while other lists are serialised afterwards
+	if pi2 := core.Try(func() {
+		keep := pco.Marshal()
+		keepCopy := append([]byte{}, keep...)
+		for v := 1; v <= 2; v++ {
+			other := nasConvert.NewProtocolConfigurationOptions()
+			for _, u := range in.Units {
+				pu := nasConvert.NewProtocolOrContainerUnit()
+				pu.ProtocolOrContainerID = u.ID ^ 0x5A5A
+				pu.LengthOfContents = uint8(u.Len)
+				pu.Contents = bytes.Repeat([]byte{byte(0x30 + v)}, u.Len)
+				other.ProtocolOrContainerList = append(other.ProtocolOrContainerList, pu)
+			}
+			extra := nasConvert.NewProtocolOrContainerUnit()
+			extra.ProtocolOrContainerID, extra.LengthOfContents, extra.Contents = 0x7777, uint8(3*v), bytes.Repeat([]byte{0x77}, 3*v)
+			other.ProtocolOrContainerList = append(other.ProtocolOrContainerList, extra)
+			_ = other.Marshal()
+		}
+		if !bytes.Equal(keep, keepCopy) {
+			shared = true
+		}
+	}); pi2 == nil && shared {
+		fail("Marshal|result-overwritten-by-later-call", fmt.Sprintf("the bytes returned by Marshal (%x…) changed after two other lists were serialised", clip(want)))
+		return
+	}
 	if !bytes.Equal(enc, want) {
 		fail("Marshal|layout", fmt.Sprintf("Marshal = %x, want configuration-protocol octet 0x80 then id/length/contents per unit: %x", clip(enc), clip(want)))
 		return
